@@ -306,15 +306,29 @@ def exhaustive_shard(item: dict[str, Any]) -> Collector:
 class FailingAt(AffineEvaluator):
     """Every realization fails (NaN) for the rows that evaluate one designated pool point."""
 
-    def __init__(self, *args: Any, point: np.ndarray, mask: np.ndarray, **kwargs: Any) -> None:  # noqa: ANN401, D107
+    def __init__(self, *args: Any, point: np.ndarray, mask: np.ndarray, only_first: bool = False, **kwargs: Any) -> None:  # noqa: ANN401, D107, FBT001, FBT002
         super().__init__(*args, **kwargs)
-        self.point, self.mask = point, mask
+        self.point, self.mask, self.only_first = point, mask, only_first
 
     def __call__(self, variables: np.ndarray, context: Any) -> Any:  # noqa: ANN401
         result = super().__call__(variables, context)
         rows = np.all(np.abs(np.asarray(variables)[:, self.mask] - self.point[self.mask]) <= 1e-9, axis=1)  # noqa: PLR2004
+        if self.only_first:  # (only realization 0 fails there: the others give the value)
+            rows &= np.asarray(context.realizations) == 0
         result.objectives[rows, :] = np.nan
         return result
+
+
+def stack_evaluator(case: dict[str, Any]) -> AffineEvaluator:
+    r_n = len(case["weights"])
+    n_con = 1 if case["cons"] in ("nl", "both") else 0
+    a = np.array(case["slopes"], dtype=np.float64).reshape(r_n, 1 + n_con, 3)
+    b = np.array(case["offsets"], dtype=np.float64).reshape(r_n, 1 + n_con)
+    args = (a[:, :1], b[:, :1], a[:, 1:] if n_con else None, b[:, 1:] if n_con else None)
+    if case.get("fail_at") is None:
+        return AffineEvaluator(*args, quad=0.3)
+    return FailingAt(*args, quad=0.3, point=POOL[case["fail_at"]], only_first=case["method"] not in ("de", "de-vec"),
+                     mask=np.ones(3, dtype=bool) if case["mask"] is None else np.array(case["mask"], dtype=bool))
 
 
 def stack_config(case: dict[str, Any]) -> dict[str, Any]:
@@ -329,8 +343,10 @@ def stack_config(case: dict[str, Any]) -> dict[str, Any]:
     }
     if case["method"] == "cobyla":
         del cfg["variables"]["lower_bounds"], cfg["variables"]["upper_bounds"]
-    if case.get("fail_at") is not None:  # (a point where everything fails is a point with the value +inf for NaN-tolerant methods)
-        cfg["realizations"]["realization_min_success"] = 0
+    if case.get("fail_at") is not None:
+        # (DE: a point where everything fails is a point with the value +inf; other methods: one realization fails there and the
+        # others give the value)
+        cfg["realizations"]["realization_min_success"] = 0 if case["method"] in ("de", "de-vec") else 1
     if case.get("tolerance") is not None:  # the convergence tolerance of the algorithm says nothing about which points are the same
         cfg["optimizer"]["tolerance"] = case["tolerance"]
     if case["cons"] in ("nl", "both"):
@@ -347,10 +363,7 @@ def run_stack(case: dict[str, Any], sequence: list[Any]) -> tuple[list[Any], Aff
     n_con = 1 if case["cons"] in ("nl", "both") else 0
     a = np.array(case["slopes"], dtype=np.float64).reshape(r_n, 1 + n_con, 3)
     b = np.array(case["offsets"], dtype=np.float64).reshape(r_n, 1 + n_con)
-    ev = AffineEvaluator(a[:, :1], b[:, :1], a[:, 1:] if n_con else None, b[:, 1:] if n_con else None, quad=0.3)
-    if case.get("fail_at") is not None:
-        ev = FailingAt(a[:, :1], b[:, :1], a[:, 1:] if n_con else None, b[:, 1:] if n_con else None, quad=0.3, point=POOL[case["fail_at"]],
-                       mask=np.ones(3, dtype=bool) if case["mask"] is None else np.array(case["mask"], dtype=bool))
+    ev = stack_evaluator(case)
     manager = PluginManager()
     design = np.array([[[1.0, 0.0, 0.0], [0.0, 1.0, 0.0], [0.0, 0.0, 1.0]]] * r_n)
     manager.add_plugin("sampler", "design", DesignSamplerPlugin([design]))
@@ -413,12 +426,13 @@ def run_stack_case(case: dict[str, Any]) -> dict[str, Any]:  # noqa: C901, PLR09
                 n_con = 1 if case["cons"] in ("nl", "both") else 0
                 a = np.array(case["slopes"], dtype=np.float64).reshape(r_n, 1 + n_con, 3)
                 b = np.array(case["offsets"], dtype=np.float64).reshape(r_n, 1 + n_con)
-                ev2 = AffineEvaluator(a[:, :1], b[:, :1], a[:, 1:] if n_con else None, b[:, 1:] if n_con else None, quad=0.3)
+                ev2 = stack_evaluator(case)
                 mgr = PluginManager()
                 mgr.add_plugin("sampler", "design", DesignSamplerPlugin([np.array([[[1.0, 0, 0], [0, 1.0, 0], [0, 0, 1.0]]] * r_n)]))
                 res = EnsembleEvaluator(cfg, None, ev2, mgr).calculate(full(j), compute_functions=True, compute_gradients=kind == "g")
                 if kind == "f":
-                    failing = case.get("fail_at") is not None and bool(np.array_equal(full(j)[mask], full(case["fail_at"])[mask]))
+                    failing = (case.get("fail_at") is not None and case["method"] in ("de", "de-vec")
+                               and bool(np.array_equal(full(j)[mask], full(case["fail_at"])[mask])))
                     exp.append(float("inf") if failing else float(res[0].functions.weighted_objective))
                 else:
                     exp.append(np.asarray(res[1].gradients.weighted_objective)[mask])
@@ -474,7 +488,7 @@ def hypothesis_shard(item: dict[str, Any]) -> Collector:
         return {"layer": "B", "method": mname, "cons": cons, "split": draw(st.booleans()), "speculative": draw(st.booleans()),
                 "weights": [draw(st.sampled_from([1.0, 2.0])) for _ in range(r_n)], "mask": mask, "start": draw(st.booleans()), "qualified": draw(st.booleans()),
                 "tolerance": draw(st.sampled_from([None, None, 1e-6, 0.05])),
-                "fail_at": 1 if mname in ("de", "de-vec") and draw(st.booleans()) else None,
+                "fail_at": 1 if (mname in ("de", "de-vec") or r_n > 1) and draw(st.booleans()) else None,
                 "slopes": [draw(st.sampled_from([-1.0, 0.5, 1.0, 2.0])) for _ in range(r_n * (1 + n_con) * 3)],
                 "offsets": [draw(st.sampled_from([-0.5, 0.0, 1.0])) for _ in range(r_n * (1 + n_con))], "sequence": seq}
 
@@ -485,7 +499,7 @@ def hypothesis_shard(item: dict[str, Any]) -> Collector:
             "speculative" if case["speculative"] else "plain", "masked" if case["mask"] else "unmasked",
             "start=argument" if case.get("start") else "start=config", f"tolerance={case.get('tolerance')}",
             "close-points" if any(3 in p_ for _, p_ in case["sequence"]) else "far-points",
-            "all-realizations-fail-at-one-point" if case.get("fail_at") is not None else "no-failures"))
+            ("all-realizations-fail-at-one-point" if case["method"] in ("de", "de-vec") else "one-realization-fails-at-one-point") if case.get("fail_at") is not None else "no-failures"))
 
     run_hypothesis(col, cases(), body, seed=item["seed"], max_examples=item["examples"])
     return col
